@@ -1,0 +1,119 @@
+//go:build verif
+
+package compression
+
+import (
+	"bytes"
+	"context"
+	"io"
+	"sync"
+
+	"github.com/jdillenkofer/pithos/internal/storage/database"
+	"github.com/jdillenkofer/pithos/internal/storage/metadatapart/partstore"
+)
+
+// Ghost scenario support for the contracts in zz_contracts_verif.go (see /verif/DESIGN.md).
+
+// verifMemStore is a part store that keeps parts in memory.
+type verifMemStore struct {
+	mu    sync.Mutex
+	parts map[partstore.PartId][]byte
+}
+
+func (s *verifMemStore) Start(ctx context.Context) error { return nil }
+func (s *verifMemStore) Stop(ctx context.Context) error  { return nil }
+func (s *verifMemStore) Capabilities() partstore.Capabilities {
+	return partstore.NewCapabilities(partstore.CapabilityTxFreeGetPart, partstore.CapabilityTxFreePutPart, partstore.CapabilityTxFreeDeletePart)
+}
+func (s *verifMemStore) PutPart(ctx context.Context, tx database.Tx, id partstore.PartId, r io.Reader) error {
+	b, err := io.ReadAll(r)
+	if err != nil {
+		return err
+	}
+	s.mu.Lock()
+	defer s.mu.Unlock()
+	s.parts[id] = b
+	return nil
+}
+func (s *verifMemStore) GetPart(ctx context.Context, tx database.Tx, id partstore.PartId) (io.ReadCloser, error) {
+	s.mu.Lock()
+	defer s.mu.Unlock()
+	b, ok := s.parts[id]
+	if !ok {
+		return nil, partstore.ErrPartNotFound
+	}
+	return io.NopCloser(bytes.NewReader(append([]byte{}, b...))), nil
+}
+func (s *verifMemStore) GetPartIds(ctx context.Context, tx database.Tx) ([]partstore.PartId, error) {
+	s.mu.Lock()
+	defer s.mu.Unlock()
+	var ids []partstore.PartId
+	for id := range s.parts {
+		ids = append(ids, id)
+	}
+	return ids, nil
+}
+func (s *verifMemStore) DeletePart(ctx context.Context, tx database.Tx, id partstore.PartId) error {
+	s.mu.Lock()
+	defer s.mu.Unlock()
+	delete(s.parts, id)
+	return nil
+}
+
+// verifCompressionRoundTrip (ghost scenario, bounded): whatever the content of a part - empty, tiny, around the
+// sampling and minimum-size thresholds, compressible or not, and also content that itself begins with a valid
+// compression header of any algorithm (a part file of another deployment uploaded as an object) - and whichever
+// algorithm is configured, GetPart returns exactly the bytes given to PutPart; a deleted part reads as not found.
+func verifCompressionRoundTrip(seed []byte, size uint16, leading uint8, algo uint8, compressible bool) bool {
+	algs := []Algorithm{AlgorithmNone, AlgorithmGzip, AlgorithmZstd}
+	var content []byte
+	if k := int(leading % 4); k > 0 {
+		h := newHeader(algs[k-1])
+		content = append(content, h[:]...)
+	}
+	n := int(size % 3000)
+	if size%7 == 0 {
+		n = []int{0, 1, 31, 32, 33, 1023, 1024, 1025}[int(size/7)%8]
+	}
+	state := uint32(2463534242) + uint32(n)
+	for _, b := range seed {
+		state = state*31 + uint32(b)
+	}
+	for i := 0; i < n; i++ {
+		if compressible {
+			content = append(content, byte(i%7))
+			continue
+		}
+		state ^= state << 13
+		state ^= state >> 17
+		state ^= state << 5
+		content = append(content, byte(state))
+	}
+	inner := &verifMemStore{parts: map[partstore.PartId][]byte{}}
+	mw, err := NewWithConfig(inner, Config{Algorithm: algs[1+int(algo)%2]}) // gzip or zstd ("none" is not a configurable algorithm)
+	if err != nil {
+		return false
+	}
+	id, err := partstore.NewRandomPartId()
+	if err != nil {
+		return false
+	}
+	ctx := context.Background()
+	if err := mw.PutPart(ctx, nil, *id, bytes.NewReader(content)); err != nil {
+		return false
+	}
+	rc, err := mw.GetPart(ctx, nil, *id)
+	if err != nil {
+		return false
+	}
+	got, err := io.ReadAll(rc)
+	rc.Close()
+	if err != nil || !bytes.Equal(got, content) {
+		return false
+	}
+	if err := mw.DeletePart(ctx, nil, *id); err != nil {
+		return false
+	}
+	_, err = mw.GetPart(ctx, nil, *id)
+	return err == partstore.ErrPartNotFound
+}
